@@ -333,3 +333,47 @@ func VH_C20_BidAccept2D() {
 	vassert(ferr == nil && in >= out && in-out >= fees.TotalFeePaid, "C20: accepted two-dummy bid pays at least the quoted fee")
 	vreach("bid2d-accept-ok")
 }
+
+// C20-O2s: a bid funded from more UTXOs than the bid transaction has outputs (N funding UTXOs:
+// N+1 inputs against at most four outputs). Outpoints are concrete (the digests over them are then
+// computed, not uninterpreted); keys, amounts and the bid are symbolic.
+func VH_C20_BidSurplus() {
+	ctx := context.Background()
+	sellerKey, sellerLock := vkey("seller-key")
+	buyerKey, buyerLock := vkey("buyer-key")
+	sellerU := bt.Unlocker(&unlocker.Simple{PrivateKey: sellerKey})
+	buyerU := bt.Unlocker(&unlocker.Simple{PrivateKey: buyerKey})
+	bid := vnondetRange("bid", 1, 1000)
+	ordTxID := make([]byte, 32)
+	ordTxID[0] = 0xee
+	ordUTXO := &bt.UTXO{TxID: ordTxID, Vout: 0, LockingScript: sellerLock, Satoshis: 1}
+	n := vparam("N", 4)
+	var utxos []*bt.UTXO
+	for i := 0; i < n; i++ {
+		id := make([]byte, 32)
+		id[0] = byte(i + 1)
+		utxos = append(utxos, &bt.UTXO{TxID: id, Vout: uint32(i), LockingScript: buyerLock, Satoshis: vnondetRange("fund-sats", 300, 2000), Unlocker: &buyerU})
+	}
+	_, dummyLock := vkey("dummy-key")
+	_, changeLock := vkey("change-key")
+	fq := bt.NewFeeQuote()
+	pstx, err := MakeBidToBuy1SatOrdinal(ctx, &MakeBidArgs{BidAmount: bid, OrdinalTxID: hex.EncodeToString(ordTxID), OrdinalVOut: 0,
+		BidderUTXOs: utxos, BuyerReceiveOrdinalScript: buyerLock, DummyOutputScript: dummyLock, ChangeScript: changeLock, FQ: fq})
+	if err != nil {
+		vreach("surplus-bid-error")
+		return
+	}
+	tx, err := AcceptBidToBuy1SatOrdinal(ctx, &ValidateBidArgs{OrdinalUTXO: ordUTXO, BidAmount: bid, ExpectedFQ: fq},
+		&AcceptBidArgs{PSTx: pstx, SellerReceiveScript: sellerLock, OrdinalUnlocker: sellerU})
+	if err != nil {
+		return
+	}
+	vassert(len(tx.Inputs) == n+1, "C20: surplus: accepted bid has one input per funding UTXO plus the ordinal")
+	prevs := make([]*bt.Output, len(tx.Inputs))
+	for i, in := range tx.Inputs {
+		prevs[i] = &bt.Output{Satoshis: in.PreviousTxSatoshis, LockingScript: in.PreviousTxScript}
+	}
+	prevs[1] = &bt.Output{Satoshis: 1, LockingScript: sellerLock}
+	vassert(vverifyAll(tx, prevs), "C20: surplus: every input of the accepted bid verifies")
+	vreach("surplus-accept-ok")
+}
